@@ -293,6 +293,14 @@ impl C18 {
         let plain: Vec<usize> = (0..LEAVES.len()).filter(|i| !LEAVES[*i].coproc).collect();
         let mut seq: Vec<usize> = (0..n).map(|_| *rng.pick(&plain)).collect();
         if class == "coproc" {
+            // every coprocess leaves two descriptors behind (known finding): leaves that name
+            // fixed high descriptors would meet them after some dozens of iterations
+            let low: Vec<usize> = plain.iter().copied().filter(|i| !LEAVES[*i].text.contains("99") && !LEAVES[*i].text.contains("98")).collect();
+            for x in &mut seq {
+                if !low.contains(x) {
+                    *x = *rng.pick(&low);
+                }
+            }
             let cps: Vec<usize> = (0..LEAVES.len()).filter(|i| LEAVES[*i].coproc).collect();
             let pos = rng.below(seq.len() as u64 + 1) as usize;
             seq.insert(pos, *rng.pick(&cps));
@@ -303,6 +311,8 @@ impl C18 {
         } else {
             *rng.pick(if tier == Tier::Thorough { &[2u32, 50, 50, 500] } else { &[2u32, 2, 10, 50] })
         };
+        // (and the leaked descriptors must stay well below the shell's descriptor limit)
+        let iterations = if class == "coproc" { iterations.min(50) } else { iterations };
         let repeated_text = rng.below(2) == 0;
         let front_end = if repeated_text {
             match rng.below(3) {
